@@ -129,7 +129,7 @@ BODY: List[Tuple[str, str, List[str], List[str], str]] = [
      ["if not isinstance(instance, Predicate):\n    SymbolGraph().add_node(WrappedInstance(instance))"],
      "Definition g_new (r : reg) (x : orec) (i : idx) : reg := g_add_node r (g_wrap x i)."),
     (EN, "_get_domain_source_from_domain_and_type_values", ["domain", "type_"],
-     ["if is_iterable(domain):\n    domain = filter(lambda x: isinstance(x, type_), domain)\n"
+     ["if is_iterable(domain):\n    domain = _instances_of(type_, domain)\n"
       "elif domain is None and issubclass(type_, Symbol):\n"
       "    return From(SymbolGraph().get_instances_of_type(type_), symbol_graph_type=type_)",
       "return From(domain)"], ""),
@@ -247,8 +247,12 @@ def translate(repo: str) -> str:
         raise Refuse(tree(SY).body[0], f"{len(sweeping)} evaluate() methods sweep the symbol graph (expected 1)", fn)
     st = _stmts(sweeping[0])
     EVALUATE = [
-        "nodes = list(self._descendants_)",
-        "for variable in self._all_variable_instances_:\n    nodes.extend(variable._all_nodes_)",
+        "nodes = []",
+        "pending = [self]",
+        "seen = set()",
+        "while pending:\n    node = pending.pop()\n    if id(node) in seen:\n        continue\n    seen.add(id(node))\n"
+        "    nodes.append(node)\n    pending.extend(node._descendants_)\n    pending.extend(node._all_variable_instances_)",
+        "nodes = nodes[1:]",
         "for node in nodes:\n    node._forget_evaluation_memory_()",
         "SymbolGraph().remove_dead_instances()",
         "try:\n    yield from map(self._process_result_, self._evaluate__())\n"
